@@ -17,7 +17,9 @@ EDITS = {
     "prec_or_and_swapped": ("libyara/grammar.y", "%left '|'\n%left '^'\n%left '&'\n", "%left '&'\n%left '^'\n%left '|'\n", None),
     "count_in_upper_exclusive": ("libyara/exec.c", "match->base + match->offset <= r2.i)\n        {\n          r4.i++;", "match->base + match->offset < r2.i)\n        {\n          r4.i++;", None),
     "empty_loop_all_true": ("libyara/exec.c", "      if (r4.i == 0)\n      {\n        r1.i = 0;\n      }", "      if (r4.i == 0)\n      {\n        r1.i = is_undef(r2) ? 1 : 0;\n      }", None),
-    "percent_strict": ("libyara/exec.c", "r1.i = (((double) found / count) * 100) >= r2.i ? 1 : 0;", "r1.i = (((double) found / count) * 100) > r2.i ? 1 : 0;", None),
+    "percent_strict": ("libyara/exec.c", "r1.i = (((int64_t) found * 100) / count) >= r2.i ? 1 : 0;", "r1.i = (((int64_t) found * 100) / count) > r2.i ? 1 : 0;", None),
+    "percent_double_again": ("libyara/exec.c", "r1.i = (((int64_t) found * 100) / count) >= r2.i ? 1 : 0;", "r1.i = (((double) found / count) * 100) >= r2.i ? 1 : 0;", None),
+    "percent_ceil": ("libyara/exec.c", "r1.i = (((int64_t) found * 100) / count) >= r2.i ? 1 : 0;", "r1.i = (((int64_t) found * 100 + count - 1) / count) >= r2.i ? 1 : 0;", None),
     "found_at_ge": ("libyara/exec.c", "        if (r1.i == match->base + match->offset)\n        {\n          r3.i = true;", "        if (r1.i <= match->base + match->offset)\n        {\n          r3.i = true;", None),
     "and_undef_true": ("libyara/exec.c", "      if (is_undef(r2))\n        r2.i = 0;\n\n      r1.i = r1.i && r2.i;", "      if (is_undef(r2))\n        r2.i = 1;\n\n      r1.i = r1.i && r2.i;", None),
     "int_le_as_lt": ("libyara/exec.c", "r1.i = r1.i <= r2.i;", "r1.i = r1.i < r2.i;", None),
@@ -42,7 +44,39 @@ EDITS = {
     "of_in_lower_exclusive": ("libyara/exec.c", "          if (match->base + match->offset >= r1.i &&\n              match->base + match->offset <= r2.i)\n          {\n            found++;", "          if (match->base + match->offset > r1.i &&\n              match->base + match->offset <= r2.i)\n          {\n            found++;", None),
     "dbl_eq_exact": ("libyara/exec.c", "r1.i = fabs(r1.d - r2.d) < DBL_EPSILON;", "r1.i = fabs(r1.d - r2.d) < 1.0;", None),
     "push_rule_negated": ("libyara/exec.c", "        if (yr_bitmask_is_set(context->rule_matches_flags, r1.i))\n          r2.i = 1;\n        else\n          r2.i = 0;", "        if (yr_bitmask_is_set(context->rule_matches_flags, r1.i))\n          r2.i = 1;\n        else\n          r2.i = (r1.i == 2);", None),
+    # ---- second batch: the classes of the independently seeded misses C04-m1 / C04-m2, and the object / module opcodes
+    "length_data_length": ("libyara/exec.c", "          r3.i = match->match_length;", "          r3.i = match->data_length;", None),
+    "startswith_strncmp": ("libyara/sizedstr.c", "  for (uint32_t i = 0; i < s2->length; i++)\n  {\n    if (s1->c_string[i] != s2->c_string[i])\n      return false;\n  }\n\n  return true;",
+                           "  return strncmp(s1->c_string, s2->c_string, s2->length) == 0;", None),
+    "contains_strstr": ("libyara/sizedstr.c", "  return memmem(s1->c_string, s1->length, s2->c_string, s2->length) != NULL;", "  return strstr(s1->c_string, s2->c_string) != NULL;", None),
+    "compare_memcmp_minlen": ("libyara/sizedstr.c", "  if (i == s1->length && i == s2->length)\n    return 0;\n  else if (i == s1->length)\n    return -1;\n  else if (i == s2->length)\n    return 1;\n  else if (s1->c_string[i] < s2->c_string[i])\n    return -1;\n  else\n    return 1;\n}\n\n////////////////////////////////////////////////////////////////////////////////\n// ss_icompare",
+                              "  if (i == s1->length || i == s2->length)\n    return 0;\n  else if (s1->c_string[i] < s2->c_string[i])\n    return -1;\n  else\n    return 1;\n}\n\n////////////////////////////////////////////////////////////////////////////////\n// ss_icompare", None),
+    "icompare_strcasecmp": ("libyara/sizedstr.c", "  while (s1->length > i && s2->length > i &&\n         yr_lowercase[(uint8_t) s1->c_string[i]] ==\n             yr_lowercase[(uint8_t) s2->c_string[i]])\n  {\n    i++;\n  }\n",
+                            "  if (strcasecmp(s1->c_string, s2->c_string) == 0) return 0;\n  while (s1->length > i && s2->length > i &&\n         yr_lowercase[(uint8_t) s1->c_string[i]] ==\n             yr_lowercase[(uint8_t) s2->c_string[i]])\n  {\n    i++;\n  }\n", None),
+    "iendswith_signed_index": ("libyara/sizedstr.c", "    if (yr_lowercase[(uint8_t) s1->c_string[s1->length - s2->length + i]] !=\n        yr_lowercase[(uint8_t) s2->c_string[i]])",
+                               "    if (yr_lowercase[(uint8_t) s1->c_string[s1->length - s2->length + i]] !=\n        yr_lowercase[(uint8_t) s2->c_string[i] & 0x7f])", None),
+    "istartswith_len_guard": ("libyara/sizedstr.c", "bool ss_istartswith(SIZED_STRING* s1, SIZED_STRING* s2)\n{\n  if (s1->length < s2->length)\n    return false;", "bool ss_istartswith(SIZED_STRING* s1, SIZED_STRING* s2)\n{\n  if (s1->length <= s2->length)\n    return false;", None),
+    "offset_int_index": ("libyara/exec.c", "        if (r1.i == i)\n          r3.i = match->base + match->offset;", "        if ((int) r1.i == i)\n          r3.i = match->base + match->offset;", None),
+    "count_in_break_ge": ("libyara/exec.c", "          r4.i++;\n        }\n\n        if (match->base + match->offset > r2.i)\n          break;", "          r4.i++;\n        }\n\n        if (match->base + match->offset >= r2.i)\n          break;", None),
+    "found_at_no_base": ("libyara/exec.c", "        if (r1.i == match->base + match->offset)\n        {\n          r3.i = true;", "        if (r1.i == match->offset)\n        {\n          r3.i = true;", None),
+    "index_array_off_by_one": ("libyara/exec.c", "      r1.o = yr_object_array_get_item(r2.o, 0, (int) r1.i);", "      r1.o = yr_object_array_get_item(r2.o, 0, (int) r1.i + (r1.i > 1));", None),
+    "lookup_dict_undef_key": ("libyara/exec.c", "      pop(r1);  // key\n      pop(r2);  // dictionary\n\n      ensure_defined(r1);", "      pop(r1);  // key\n      pop(r2);  // dictionary\n\n      if (is_undef(r1)) r1.ss = NULL;", None),
+    "str_to_bool_nonempty": ("libyara/exec.c", "      r1.i = r1.ss->length > 0;", "      r1.i = r1.ss->length >= 0;", None),
+    "of_percent_undef_q": ("libyara/exec.c", "r1.i = (((int64_t) found * 100) / count) >= r2.i ? 1 : 0;", "r1.i = (((int64_t) found * 100) / count) >= (r2.i & 0xff) ? 1 : 0;", None),
+    "matches_nocase_lost": ("libyara/exec.c", "          r2.re->flags | RE_FLAGS_SCAN,", "          RE_FLAGS_SCAN,", None),
+    "iter_array_skips_last": ("libyara/exec.c", "  if (self->array_it.index >= yr_object_array_length(self->array_it.array))", "  if (self->array_it.index + 1 >= yr_object_array_length(self->array_it.array))", None),
+    "entrypoint_zero": ("libyara/exec.c", "      r1.i = context->entry_point;", "      r1.i = context->entry_point == YR_UNDEFINED ? 0 : context->entry_point;", None),
+    "length_first_match_only": ("libyara/exec.c", "      i = 1;\n      r3.i = YR_UNDEFINED;\n\n      while (match != NULL && r3.i == YR_UNDEFINED)\n      {\n        if (r1.i == i)\n          r3.i = match->match_length;",
+                                "      i = 1;\n      r3.i = YR_UNDEFINED;\n\n      while (match != NULL && r3.i == YR_UNDEFINED)\n      {\n        if (r1.i >= i)\n          r3.i = match->match_length;", None),
 }
+
+
+def clean_build():
+    """object directories of the scratch copy (vf/build.py keys them by the hash of the repository path)"""
+    import hashlib, glob
+    h = hashlib.sha1(os.path.realpath(COPY).encode()).hexdigest()[:8]
+    for d in glob.glob(os.path.join(VERIF, ".build", "*-%s*" % h)):
+        shutil.rmtree(d, ignore_errors=True)
 
 
 def main():
@@ -60,16 +94,16 @@ def main():
             print(name, results[name]); continue
         open(p, "w").write(s.replace(old, new))
         os.utime(p, None)
-        shutil.rmtree(os.path.join(VERIF, ".build", "asan-c04"), ignore_errors=True)
+        clean_build()
         env = dict(os.environ, VERIF_REPO=COPY)
         r = subprocess.run(["./check", "C04", "--tier", "quick"], cwd=VERIF, env=env, stdout=subprocess.PIPE, stderr=subprocess.STDOUT, text=True)
         lines = [l for l in r.stdout.splitlines() if l.startswith(("VIOLATION", "OK", "CHECK-ERROR"))]
         results[name] = "CAUGHT rc=%d (%s)" % (r.returncode, lines[0][:100] if lines else "?") if r.returncode == 1 else "MISSED rc=%d %s" % (r.returncode, lines[:1])
         print(name, results[name], flush=True)
     shutil.rmtree(COPY, ignore_errors=True)
-    shutil.rmtree(os.path.join(VERIF, ".build", "asan-c04"), ignore_errors=True)
+    clean_build()
     # restore generated Lean files from the real repo
-    subprocess.run(["python3", "-c", "from vf import core; core.run_translators(['vmops','precedence','readfn','opcodes'])"], cwd=VERIF)
+    subprocess.run(["python3", "-c", "from vf import core; core.run_translators(['vmops','precedence','readfn','opcodes','sizedstr','matchops'])"], cwd=VERIF)
     print("summary:", sum(1 for v in results.values() if v.startswith("CAUGHT")), "caught of", len(results))
 
 
